@@ -150,7 +150,7 @@ Theorem ms_contract : log_contract gtok mspec ms_ins ms_nout ms_outs ms_done ms_
 Proof.
   split; [|split; [|split; [|split]]].
   - (* outputs only grow *)
-    intros sp l a j. destruct sp as [f i|i|d ps pe]; simpl.
+    intros sp l j0 t j _ _. set (a := [(j0, t)]). destruct sp as [f i|i|d ps pe]; simpl.
     + destruct j as [|[|j]]; simpl; try apply extg_refl. rewrite (proj_app gtok). apply xf_mono.
     + destruct j as [|[|[|j]]]; simpl; try apply extg_refl; rewrite (proj_app gtok); [apply sce_mono|apply scs_mono].
     + destruct j as [|[|j]]; simpl; try apply extg_refl.
